@@ -41,6 +41,7 @@ class TradingHaltRule(EventABC):
         self.activation_count: int = 0
         self.target_markets: Dict[str, Market] = {}
         self.trigger_change_rate: float = 0.0
+        self.halted_sessions: Dict[int, Session] = {}
 
     def setup(self, settings: Dict[str, Any], *args, **kwargs) -> None:  # type: ignore  # NOQA
         """event setup. Usually be called from simulator/runner automatically.
@@ -119,6 +120,7 @@ class TradingHaltRule(EventABC):
                         if simulator.current_session is None:
                             raise AssertionError
                         simulator.current_session.with_order_execution = False
+                        self.halted_sessions[m.market_id] = simulator.current_session
 
     def hooked_before_step_for_market(
         self, simulator: Simulator, market: Market
@@ -130,8 +132,12 @@ class TradingHaltRule(EventABC):
                 if m == market:
                     if simulator.current_session is None:
                         raise AssertionError
-                    simulator.current_session.with_order_execution = True
-                    m._is_running = True
+                    if m.market_id not in self.halted_sessions:
+                        continue
+                    halted_session = self.halted_sessions.pop(m.market_id)
+                    if halted_session is simulator.current_session:
+                        halted_session.with_order_execution = True
+                        m._is_running = True
                     self.halting_time_started = 0
 
 
